@@ -1,10 +1,180 @@
 (* C10 — deciding obligations. Statements only, closed by the lemmas proved elsewhere. *)
 From Coq Require Import String ZArith QArith List Bool.
-From VF Require Import Codec.Sweeps Codec.SweepsProofs.
+From VF Require Import Codec.Sweeps Codec.SweepsProofs Codec.Resolver Codec.ResolverProofs.
 Import ListNotations.
 Local Open Scope nat_scope.
 
-(* ---- sweeps (D3) ---- *)
+(* ================= sweeps (D3): length, iteration, indexing and slicing tell the same story ================= *)
 Theorem C10_sweep_len_iter : forall s, length (iter s) = len s.
 Proof. exact sweep_len_iter. Qed.
 Print Assumptions C10_sweep_len_iter.
+
+(* sweep[i] for -n <= i < n is the (i mod n)-th element of the iteration; outside that range it is an IndexError *)
+Theorem C10_sweep_getitem : forall s (i : Z) d,
+  (- Z.of_nat (len s) <= i < Z.of_nat (len s))%Z ->
+  getitem s i = Some (nth (Z.to_nat (i mod Z.of_nat (len s))) (iter s) d).
+Proof. exact sweep_getitem. Qed.
+Print Assumptions C10_sweep_getitem.
+
+Theorem C10_sweep_getitem_out_of_range : forall s (i : Z),
+  (i < - Z.of_nat (len s) \/ Z.of_nat (len s) <= i)%Z <-> getitem s i = None.
+Proof. exact sweep_getitem_out_of_range. Qed.
+Print Assumptions C10_sweep_getitem_out_of_range.
+
+(* the dictionary walk of Sweep.__getitem__(slice) = ListSweep of the positions range(len)[slice], in slice order *)
+Theorem C10_sweep_slice : forall s sl s',
+  getslice s sl = Some s' ->
+  exists idxs, slice_indices (len s) sl = Some idxs /\
+               s' = ListSweep (pick [] (iter s) idxs) /\
+               iter s' = pick [] (iter s) idxs /\ len s' = length idxs.
+Proof. exact sweep_slice. Qed.
+Print Assumptions C10_sweep_slice.
+
+Theorem C10_sweep_slice_zero_step : forall s sl, getslice s sl = None <-> sl_step sl = Some 0%Z.
+Proof. exact sweep_slice_zero_step. Qed.
+Print Assumptions C10_sweep_slice_zero_step.
+
+Theorem C10_slice_indices_prefix : forall n a b, a <= b <= n ->
+  slice_indices n (mkSlice (Some (Z.of_nat a)) (Some (Z.of_nat b)) None) = Some (seq a (b - a)).
+Proof. exact slice_indices_prefix. Qed.
+Print Assumptions C10_slice_indices_prefix.
+
+Theorem C10_sweep_slice_all : forall s, getslice s (mkSlice None None None) = Some (ListSweep (iter s)).
+Proof. exact sweep_slice_all. Qed.
+Print Assumptions C10_sweep_slice_all.
+
+(* Product is the lexicographic product, the last factor varying fastest *)
+Theorem C10_product_lex : forall s l i j,
+  i < len s -> j < len (Product l) ->
+  nth (i * len (Product l) + j) (iter (Product (s :: l))) [] = nth i (iter s) [] ++ nth j (iter (Product l)) [].
+Proof. exact product_lex. Qed.
+Print Assumptions C10_product_lex.
+
+(* Zip stops with its shortest factor and pairs the i-th elements *)
+Theorem C10_zip_prefix : forall l i, i < len (Zip l) ->
+  nth i (iter (Zip l)) [] = concat (map (fun s => nth i (iter s) []) l).
+Proof. exact zip_prefix. Qed.
+Print Assumptions C10_zip_prefix.
+
+Theorem C10_zip_len_shortest : forall l s, In s l -> len (Zip l) <= len s.
+Proof. exact zip_len_shortest. Qed.
+Print Assumptions C10_zip_len_shortest.
+
+(* ZipLongest repeats the last value of the shorter factors *)
+Theorem C10_ziplongest_repeats_last : forall l i,
+  (forall s, In s l -> 0 < len s) -> i < len (ZipLongest l) ->
+  nth i (iter (ZipLongest l)) [] = concat (map (fun s => nth (Nat.min i (len s - 1)) (iter s) []) l).
+Proof. exact ziplongest_repeats_last. Qed.
+Print Assumptions C10_ziplongest_repeats_last.
+
+Theorem C10_concat_app : forall s l, iter (Concat (s :: l)) = iter s ++ iter (Concat l).
+Proof. exact concat_app. Qed.
+Print Assumptions C10_concat_app.
+
+(* Linspace: start, ..., stop, equally spaced (exact rationals) *)
+Theorem C10_linspace_endpoints : forall a b n, 2 <= n ->
+  (lin_value a b n 0 == a)%Q /\ (lin_value a b n (n - 1) == b)%Q.
+Proof. exact linspace_endpoints. Qed.
+Print Assumptions C10_linspace_endpoints.
+
+Theorem C10_linspace_formula : forall a b n i, 2 <= n ->
+  (lin_value a b n i == a + inject_Z (Z.of_nat i) * ((b - a) / inject_Z (Z.of_nat (n - 1))))%Q.
+Proof. exact linspace_formula. Qed.
+Print Assumptions C10_linspace_formula.
+
+Theorem C10_linspace_iter : forall k a b n i, i < n ->
+  nth i (iter (Linspace k a b n)) [] = [(k, lin_value a b n i)].
+Proof. exact linspace_iter. Qed.
+Print Assumptions C10_linspace_iter.
+
+(* ================= resolver (D1): value_of = substitution iterated to a fixed point ========================== *)
+(* an answer of value_of (fast paths, slow path, recursion sentinel) is the fixed point of simultaneous substitution;
+   hence, for every interpretation of the arithmetic, its value is the value of the substituted expression *)
+Theorem C10_value_of_is_subst : forall r fuel e e', value_of fuel r [] e = Ok e' ->
+  exists n, (forall k, n <= k -> subst_iter k r e = e') /\ subst r e' = e'.
+Proof. exact value_of_is_subst. Qed.
+Print Assumptions C10_value_of_is_subst.
+
+Theorem C10_value_of_eval : forall r fuel e e', value_of fuel r [] e = Ok e' ->
+  exists n, forall V (I : interp V) env, eval I env e' = eval I env (subst_iter n r e).
+Proof. exact value_of_eval. Qed.
+Print Assumptions C10_value_of_eval.
+
+(* whatever substitution resolves, value_of returns (given fuel); a reported loop is a real one; cyclic ones never answer *)
+Theorem C10_value_of_complete : forall r e e', resolves_to r e e' -> exists fuel, value_of fuel r [] e = Ok e'.
+Proof. exact value_of_complete. Qed.
+Print Assumptions C10_value_of_complete.
+
+Theorem C10_value_of_loop_sound : forall r fuel e, value_of fuel r [] e = Loop -> forall e', ~ resolves_to r e e'.
+Proof. exact value_of_loop_sound. Qed.
+Print Assumptions C10_value_of_loop_sound.
+
+Theorem C10_value_of_cyclic : forall r fuel e, (forall e', ~ resolves_to r e e') -> forall e', value_of fuel r [] e <> Ok e'.
+Proof. exact value_of_cyclic. Qed.
+Print Assumptions C10_value_of_cyclic.
+
+Theorem C10_resolves_to_functional : forall r e e1 e2, resolves_to r e e1 -> resolves_to r e e2 -> e1 = e2.
+Proof. exact resolves_to_functional. Qed.
+Print Assumptions C10_resolves_to_functional.
+
+(* recursive=False is exactly one simultaneous substitution *)
+Theorem C10_value_of_once_subst : forall r e, value_of_once r e = subst r e.
+Proof. exact value_of_once_subst. Qed.
+Print Assumptions C10_value_of_once_subst.
+
+(* unrelated symbols are left alone; what remains mentions only symbols the dictionary cannot change *)
+Theorem C10_value_of_unrelated : forall r e, (forall s, In s (free_syms e) -> lookup r s = None) ->
+  forall fuel, size e <= fuel -> value_of fuel r [] e = Ok e.
+Proof. exact value_of_unrelated. Qed.
+Print Assumptions C10_value_of_unrelated.
+
+Theorem C10_resolves_to_syms : forall r e e', resolves_to r e e' ->
+  forall u, In u (free_syms e') -> settled r u /\ (In u (free_syms e) \/ In u (range_syms r)).
+Proof. exact resolves_to_syms. Qed.
+Print Assumptions C10_resolves_to_syms.
+
+(* ================= composition (D2) =========================================================================== *)
+Theorem C10_resolver_compose : forall fuel r1 r2 r12, compose fuel r1 r2 = Ok r12 -> no_reintro r1 r2 ->
+  forall e e1 e2, resolves_to r1 e e1 -> resolves_to r2 e1 e2 -> resolves_to r12 e e2.
+Proof. exact resolver_compose. Qed.
+Print Assumptions C10_resolver_compose.
+
+(* the full-strength law (without no_reintro) is false of the model; the witness is replayed on the implementation *)
+Theorem C10_resolver_compose_refuted : exists fuel r1 r2 r12 e e1 e2,
+  compose fuel r1 r2 = Ok r12 /\ resolves_to r1 e e1 /\ resolves_to r2 e1 e2 /\ ~ resolves_to r12 e e2.
+Proof. exact resolver_compose_refuted. Qed.
+Print Assumptions C10_resolver_compose_refuted.
+
+(* ================= flatten (D4) ================================================================================ *)
+(* for every naming function (sympy's printer, injective or not) and every suffixing function: each parameter of the
+   flattened circuit, under the transformed assignment, has the value of the original parameter *)
+Theorem C10_flatten_preserves_eval : forall name suffix fuel es es' m,
+  flatten_all name suffix fuel [] es = Some (es', m) ->
+  forall V (I : interp V) env, Forall2 (fun e e' => eval I (transform_env I env m) e' = eval I env e) es es'.
+Proof. exact flatten_preserves_eval. Qed.
+Print Assumptions C10_flatten_preserves_eval.
+
+Theorem C10_flatten_is_flat : forall name suffix fuel es m es' m', flatten_all name suffix fuel m es = Some (es', m') ->
+  Forall (fun e' => (exists q, e' = Num q) \/ (exists s, e' = Sym s)) es'.
+Proof. exact flatten_is_flat. Qed.
+Print Assumptions C10_flatten_is_flat.
+
+(* ================= non-vacuity ================================================================================== *)
+Example C10_value_of_example :
+  value_of 10 [("a", App HAdd [Sym "b"; Num 1]); ("b", App HMul [Sym "c"; Num 2]); ("c", Num (1#2))]%string [] (Sym "a"%string)
+  = Ok (App HAdd [App HMul [Num (1#2); Num 2]; Num 1]).
+Proof. exact value_of_is_subst_example. Qed.
+
+Example C10_compose_example :
+  compose 10 [("a", Sym "b")]%string [("b", App HAdd [Sym "c"; Sym "d"])]%string
+  = Ok [("b", App HAdd [Sym "c"; Sym "d"]); ("a", App HAdd [Sym "c"; Sym "d"])]%string
+  /\ no_reintro [("a", Sym "b")]%string [("b", App HAdd [Sym "c"; Sym "d"])]%string.
+Proof. exact resolver_compose_example. Qed.
+
+Example C10_loop_example : value_of 10 [("a", App HAdd [Sym "b"; Num 1]); ("b", App HMul [Sym "a"; Num 2])]%string [] (Sym "a"%string) = Loop.
+Proof. reflexivity. Qed.
+
+Example C10_slice_example :
+  option_map iter (getslice (Points "a"%string [1; 2; 3; 4]%Q) (mkSlice (Some (-1)%Z) None (Some (-2)%Z)))
+  = Some [[("a"%string, 4%Q)]; [("a"%string, 2%Q)]].
+Proof. reflexivity. Qed.
